@@ -88,7 +88,7 @@ def run_checks(args, meta, wt, patch, src, name):
         for c in checks:
             out_dir = os.path.join(os.path.dirname(wt), 'out')
             env = dict(os.environ, VERIF_SEED=args.seed, BARDOLPH_REPO=wt, VERIF_OUT_DIR=out_dir)
-            rr = sh([os.path.join(ROOT, 'check'), c, '--tier', 'quick'], cwd=ROOT, env=env, timeout=3000)
+            rr = sh([os.path.join(ROOT, 'check'), c, '--tier', 'quick'], cwd=ROOT, env=env, timeout=1200)
             lines = [ln for ln in rr.stdout.splitlines() if ln.startswith('VIOLATION')]
             detail = []
             for ln in lines:
